@@ -60,6 +60,8 @@ type HostileCase struct {
 	CpRealTree  bool     `json:"cp_real"`     // root is the real root of the honest tree (sizes <= 2^16 only)
 	Script      []Answer `json:"script"`      // answers for request 0,1,2,...; the last repeats
 	DeadlineMs  int      `json:"deadline_ms"`
+	Periodic    bool     `json:"periodic,omitempty"` // run the feeder in polling mode (interval 120 ms) for 5 intervals: it must keep going until its context ends
+	JSONShape   int      `json:"json_shape,omitempty"` // rekor: 0 honest JSON, 1.. well-formed JSON with hostile content
 }
 
 const hostileOrigin = "hostile.example/log"
@@ -144,7 +146,29 @@ func (s *hostileServer) validBody(r *http.Request) []byte {
 	case strings.HasSuffix(p, "/latest"), strings.HasSuffix(p, "/checkpoint"), strings.HasSuffix(p, "/checkpoint.txt"):
 		return cp
 	case strings.HasSuffix(p, "/api/v1/log"):
-		b, _ := json.Marshal(map[string]any{"signedTreeHead": string(cp), "treeID": "1234", "treeSize": 1, "rootHash": "00", "inactiveShards": []any{}})
+		good := map[string]any{"signedTreeHead": string(cp), "treeID": "1234", "treeSize": 1, "rootHash": "00", "inactiveShards": []any{}}
+		shard := map[string]any{"signedTreeHead": string(cp), "treeID": "1234", "treeSize": 1, "rootHash": "00"}
+		var v any = good
+		// JSON-shaped hostility (well-formed JSON, unexpected content), selected by the case
+		switch s.c.JSONShape {
+		case 1: // the wanted shard hides behind a null element
+			v = map[string]any{"signedTreeHead": "x", "treeID": "999", "inactiveShards": []any{nil, shard}}
+		case 2: // only nulls
+			v = map[string]any{"signedTreeHead": nil, "treeID": nil, "treeSize": nil, "inactiveShards": []any{nil, nil}}
+		case 3: // wrong types
+			v = map[string]any{"signedTreeHead": 12, "treeID": 1234, "inactiveShards": "x"}
+		case 4: // empty object
+			v = map[string]any{}
+		case 5: // inactive shard matches, active does not
+			v = map[string]any{"signedTreeHead": "junk", "treeID": "1", "inactiveShards": []any{map[string]any{"treeID": "7"}, shard}}
+		case 6: // top-level array / null
+			return []byte("[null]")
+		case 7:
+			return []byte("null")
+		case 8: // huge numbers
+			return []byte(`{"treeID":"1234","treeSize":1e400,"signedTreeHead":"` + "x" + `","inactiveShards":[{"treeSize":-9223372036854775809}]}`)
+		}
+		b, _ := json.Marshal(v)
 		return b
 	case strings.HasSuffix(p, "/api/v1/log/proof"):
 		var hs []string
@@ -153,7 +177,20 @@ func (s *hostileServer) validBody(r *http.Request) []byte {
 				hs = append(hs, hex.EncodeToString(h))
 			}
 		}
-		b, _ := json.Marshal(map[string]any{"hashes": hs})
+		var pv any = map[string]any{"hashes": hs}
+		switch s.c.JSONShape {
+		case 1, 2:
+			pv = map[string]any{"hashes": []any{nil, "zz", "00"}}
+		case 3:
+			pv = map[string]any{"hashes": []any{123, true}}
+		case 4:
+			pv = map[string]any{"hashes": nil}
+		case 6:
+			return []byte("[]")
+		case 7:
+			return []byte("null")
+		}
+		b, _ := json.Marshal(pv)
 		return b
 	case strings.Contains(p, "/tile/"):
 		rel := p[strings.Index(p, "/tile/")+1:]
@@ -239,6 +276,12 @@ func runHostileInProcess(c *HostileCase) hostileResult {
 		return hostileResult{Class: "harness", Detail: err.Error()}
 	}
 	dl := time.Duration(c.DeadlineMs) * time.Millisecond
+	interval := time.Duration(0)
+	if c.Periodic && c.Feeder != "distributor" {
+		interval = 120 * time.Millisecond
+		dl = 5 * interval
+	}
+	started := time.Now()
 	ctx, cancel := context.WithTimeout(context.Background(), dl)
 	defer cancel()
 	type ret struct {
@@ -279,7 +322,7 @@ func runHostileInProcess(c *HostileCase) hostileResult {
 			r.err = d.DistributeOnce(ctx)
 			return
 		}
-		r.err = ff(ctx, lc, wa, client, 0)
+		r.err = ff(ctx, lc, wa, client, interval)
 	}()
 	grace := 20 * time.Second
 	select {
@@ -287,6 +330,9 @@ func runHostileInProcess(c *HostileCase) hostileResult {
 		past := len(vlib.Diff(attempts, vlib.Metrics.Snapshot("witness_update_request"))) > 0 || srv.n > 1
 		if r.pan != nil {
 			return hostileResult{Class: "panic", Detail: fmt.Sprintf("%v\n%s", r.pan, r.stk), Reqs: srv.n, Past: past}
+		}
+		if interval > 0 && time.Since(started) < dl-60*time.Millisecond {
+			return hostileResult{Class: "ended-early", Detail: fmt.Sprintf("polling feeder returned after %v although its context had %v left: %v", time.Since(started).Round(time.Millisecond), (dl - time.Since(started)).Round(time.Millisecond), r.err), Reqs: srv.n, Past: true}
 		}
 		if r.err != nil {
 			return hostileResult{Class: "error", Detail: trimErr(r.err), Reqs: srv.n, Past: past}
@@ -464,6 +510,10 @@ func genHostile(rt *rapid.T) *HostileCase {
 	if vlib.Pct(rt, 10, "stranger") {
 		c.CpSigner = "stranger"
 	}
+	c.Periodic = vlib.Pct(rt, 20, "periodic")
+	if c.Feeder == "rekor" && rapid.Bool().Draw(rt, "jsonhostile") {
+		c.JSONShape = rapid.IntRange(1, 8).Draw(rt, "jsonshape")
+	}
 	n := rapid.IntRange(0, 5).Draw(rt, "nscript")
 	for i := 0; i < n; i++ {
 		c.Script = append(c.Script, Answer{
@@ -490,6 +540,8 @@ func checkHostile(c *HostileCase, r hostileResult) error {
 		return fmt.Errorf("%s cycle PANICKED: %s", c.Feeder, r.Detail)
 	case "hang":
 		return fmt.Errorf("%s cycle did not return %d ms + 20 s after it started (context deadline ignored); goroutines still busy:\n%s", c.Feeder, c.DeadlineMs, r.Detail)
+	case "ended-early":
+		return fmt.Errorf("%s feeder in polling mode stopped on its own while its context was alive (in the assembled service this cancels every other component): %s", c.Feeder, r.Detail)
 	case "died":
 		return fmt.Errorf("%s cycle killed the process: %s", c.Feeder, r.Detail)
 	}
@@ -572,6 +624,18 @@ func TestC19Sizes(t *testing.T) {
 					cases = append(cases, c)
 				}
 			}
+		}
+	}
+	// polling mode: cycles that fail for their whole interval (a log-signed checkpoint the
+	// witness refuses) must not end the feeder
+	for _, f := range []string{"serverless", "sumdb", "pixel", "rekor", "tiles"} {
+		cases = append(cases, &HostileCase{Feeder: f, WitnessSize: 3, CpSize: 9, CpRootLen: 32, CpSigner: "log", Periodic: true},
+			&HostileCase{Feeder: f, WitnessSize: 3, CpSize: 9, CpRootLen: 32, CpSigner: "stranger", Periodic: true},
+			&HostileCase{Feeder: f, WitnessSize: 300, CpSize: 7, CpRootLen: 32, CpSigner: "log", CpRealTree: true, Periodic: true})
+	}
+	for shape := 1; shape <= 8; shape++ {
+		for _, ws := range []int64{-1, 3} {
+			cases = append(cases, &HostileCase{Feeder: "rekor", WitnessSize: ws, CpSize: 9, CpRootLen: 32, CpSigner: "log", CpRealTree: true, DeadlineMs: 300, JSONShape: shape})
 		}
 	}
 	shard, nshards := vlib.Shard()
